@@ -85,19 +85,19 @@ theorem read_write (ks : Bytes → Bytes → Nat → UInt8) (s : Stream) (ws chu
   rw [readAll_eq_writeAll, writeAll_xor, h, writeAll_xor]
   exact xorStream_invol _ _ _
 
-theorem readOne_eq (X : Cipher) (s : Stream) (c : Bytes) (f : Bool) : readOne X s c f = s.xor X c := by
-  have h : Facts.C18.readDecryptsWithError = true := by decide
-  simp [readOne, h]
+theorem readOne_eq (X : Cipher) (s : Stream) (c : Bytes) (e : RdErr) : readOne X s c e = s.xor X c := by
+  have h : Facts.C18.readSkipsDecryptOn = 0 := by decide
+  cases e <;> simp [readOne, h]
 
-theorem readAllE_eq (X : Cipher) (e : Bool) : ∀ (cs : List Bytes) (s : Stream), readAllE X e s cs = readAll X s cs := by
+theorem readAllE_eq (X : Cipher) : ∀ (cs : List (Bytes × RdErr)) (s : Stream),
+    readAllE X s cs = readAll X s (cs.map (·.1)) := by
   intro cs
   induction cs with
   | nil => intro s; rfl
   | cons c cs ih =>
     intro s
-    cases cs with
-    | nil => simp [readAllE, readAll, readOne_eq]
-    | cons d ds => simp only [readAllE, readAll, readOne_eq, ih]
+    obtain ⟨c, e⟩ := c
+    simp only [readAllE, readAll, List.map_cons, readOne_eq, ih]
 
 /-! ### The byte ranges read from the source are MTProto's -/
 
